@@ -66,11 +66,12 @@ def make_checksig(txmodel=TX_MODEL, idx=0):
 def run_lib_eval(script, init, fs, tx=None, idx=0):
     """-> ('fail', class name) | ('ok', stack tuple) | ('EXC', description)"""
     from bitcoin.core.script import CScript
-    from bitcoin.core.scripteval import EvalScript, EvalScriptError
+    from bitcoin.core import ValidationError
+    from bitcoin.core.scripteval import EvalScript
     st = list(init)
     try:
         EvalScript(st, CScript(script), tx if tx is not None else spend_tx(), idx, flags=lib_flags(fs))
-    except EvalScriptError as e:
+    except ValidationError as e:
         return ('fail', type(e).__name__)
     except Exception as e:  # noqa
         return ('EXC', '%s: %s' % (type(e).__name__, str(e)[:80]))
